@@ -70,7 +70,8 @@ func parseRace(report string) (key string, inLibrary bool, summary string) {
 		rep = rep[:j]
 	}
 	// sections: "<Access> at 0x.. by goroutine N:" then frames, "Previous <access> at ..." then frames, then "Goroutine N (running) created at:"
-	secs := strings.Split(rep, "\n\n")
+	// the first access follows the "WARNING: DATA RACE" line directly
+	secs := strings.Split(strings.TrimPrefix(strings.TrimPrefix(rep, "WARNING: DATA RACE"), "\n"), "\n\n")
 	var tops []string
 	for _, sec := range secs {
 		head := strings.TrimSpace(strings.SplitN(sec, "\n", 2)[0])
@@ -186,6 +187,7 @@ func CheckConc(e *Env) (int, error) {
 		idx     int
 		report  string
 		key     string
+		from    int
 	}
 	var races []raceHit
 
@@ -267,7 +269,7 @@ func CheckConc(e *Env) (int, error) {
 				if !inLib {
 					return 2, harnessErr("data race inside the harness itself (job from=%d):\n%s", j.From, report)
 				}
-				races = append(races, raceHit{strings.TrimSuffix(j.Variant, "-race"), idx, report, key})
+				races = append(races, raceHit{strings.TrimSuffix(j.Variant, "-race"), idx, report, key, j.From})
 			default:
 				return 2, harnessErr("conc job %s from=%d exited %d:\n%s", j.Variant, j.From, j.ExitCode, j.Stderr)
 			}
@@ -301,7 +303,7 @@ func CheckConc(e *Env) (int, error) {
 		if exit == 1 && len(seenKeys) > 2 {
 			continue
 		}
-		path, err := e.reportRace(bins, rh.variant, rh.idx, rh.report, v, shrinkBudget)
+		path, err := e.reportRace(bins, rh.variant, rh.idx, rh.from, rh.report, v, shrinkBudget)
 		if err != nil {
 			return 2, err
 		}
@@ -371,7 +373,7 @@ func CheckConc(e *Env) (int, error) {
 }
 
 // reportRace minimises a racy run and writes its replay file.
-func (e *Env) reportRace(bins concBins, variant string, idx int, report string, v kernel.Violation, budget time.Duration) (string, error) {
+func (e *Env) reportRace(bins concBins, variant string, idx, jobFrom int, report string, v kernel.Violation, budget time.Duration) (string, error) {
 	rec, err := e.recordTape(bins.plain[variant], variant, idx, bins.sites)
 	if err != nil {
 		return "", err
@@ -397,7 +399,19 @@ func (e *Env) reportRace(bins concBins, variant string, idx int, report string, 
 		return true, res.Tape
 	}
 	ok, canon := trial(rf.Tape)
+	if !ok && idx > jobFrom {
+		// the race may need the state the process accumulated in the runs
+		// that preceded this one in its job
+		rf.Prefix = idx - jobFrom
+		if ok, canon = trial(rf.Tape); !ok {
+			rf.Prefix = 0
+		} else {
+			Logf("race of run %d reproduces only after the %d runs that preceded it in its process", idx, rf.Prefix)
+		}
+	}
 	if !ok {
+		f := false
+		rf.Reproduced = &f
 		// report unminimised; the original report is attached
 		Logf("race of run %d did not reproduce from its recorded tape in a fresh process; reporting it with the original report attached", idx)
 		rf.Note = "the race was reported during the batch but did not reproduce when the run was replayed alone (the race detector reports a racy pair once per process and needs cold package state); original report attached"
